@@ -894,7 +894,8 @@ cleanup:
     }
     lydctx->parse_opts = prev_parse_opts;
     if (rc && ((*node && !(*node)->hash) || !(lydctx->val_opts & LYD_VALIDATE_MULTI_ERROR) || (rc != LY_EVALID))) {
-        /* list without keys is unusable or an error */
+        /* list without keys is unusable or an error, nodes of the subtree must not be validated later */
+        lyd_ctx_forget_subtree((struct lyd_ctx *)lydctx, *node);
         lyd_free_tree(*node);
         *node = NULL;
     }
